@@ -56,6 +56,8 @@ type cgMember struct {
 	nextErrs   []error
 	afterClose error
 	topics     []string
+	rack       string
+	balancers  []kafka.GroupBalancer
 }
 
 func cgroupScenario(s *Sim, params map[string]string) {
@@ -65,8 +67,13 @@ func cgroupScenario(s *Sim, params map[string]string) {
 	n.MaxLatency = n.MinLatency + time.Duration(t.Range("cfg", 0, 20))*100*time.Microsecond
 	cl := NewCluster(s, n)
 	nb := t.Range("cfg", 1, 3)
+	rackMode := t.Intn("racks", 2) == 0 // brokers and members live in racks
 	for i := 1; i <= nb; i++ {
-		b := cl.AddBroker(int32(i), "")
+		rack := ""
+		if rackMode {
+			rack = []string{"r1", "r2"}[(i-1)%2]
+		}
+		b := cl.AddBroker(int32(i), rack)
 		b.Versions[11] = [2]int16{0, Pick(t, "cfg", int16(7), 2, 1)}
 		b.Versions[3] = [2]int16{0, Pick(t, "cfg", int16(8), 6, 1)}
 	}
@@ -75,6 +82,19 @@ func cgroupScenario(s *Sim, params map[string]string) {
 	cl.MetaOrder = Pick(t, "cfg", 0, 0, 1, 2, 3) // brokers list partitions in no particular order
 	g := cl.group("cgrp")
 	installAssignmentMonitor(s, cl)
+	var membersRef func() []*cgMember
+	electionsPlanned := false
+	cl.MemberRack = func(memberID string) (string, bool) {
+		if !rackMode || electionsPlanned {
+			return "", false // (leaders move in this run: the racks the group leader saw are not the racks now)
+		}
+		for _, m := range membersRef() {
+			if strings.HasPrefix(memberID, m.clientID+"-m") {
+				return m.rack, true
+			}
+		}
+		return "", false
+	}
 	// members may subscribe to different topic sets (a rolling deploy that
 	// adds a topic): whoever is elected leader assigns the partitions of every
 	// topic any member subscribes to
@@ -106,9 +126,11 @@ func cgroupScenario(s *Sim, params map[string]string) {
 	watch := t.Intn("cfg", 3) == 0
 	watchIvl := Pick(t, "cfg", 500*time.Millisecond, 2*time.Second)
 
+	mixedLists := t.Intn("racks", 2) == 0
 	nmem := t.Range("cfg", 1, 3)
 	lateNext := t.Intn("latenext", 3) == 0
 	var members []*cgMember
+	membersRef = func() []*cgMember { return members }
 	slack := 2*n.MaxLatency + time.Millisecond
 
 	runMember := func(m *cgMember, startDelay time.Duration) {
@@ -124,7 +146,7 @@ func cgroupScenario(s *Sim, params map[string]string) {
 				Dialer:            &kafka.Dialer{DialFunc: n.Dialer(m.clientID), ClientID: m.clientID, Timeout: 3 * time.Second},
 				HeartbeatInterval: hb, SessionTimeout: session, RebalanceTimeout: rebalance, JoinGroupBackoff: backoff, Timeout: timeout,
 				WatchPartitionChanges: watch, PartitionWatchInterval: watchIvl,
-				GroupBalancers: []kafka.GroupBalancer{balancer},
+				GroupBalancers: m.balancers,
 			})
 			if err != nil {
 				s.Fail("SIM", "cgroup-config", "%v", err)
@@ -247,6 +269,25 @@ func cgroupScenario(s *Sim, params map[string]string) {
 		if hetero {
 			m.topics = [][]string{{"ct"}, {"ct", "cu"}, {"cu", "ct"}, {"ct"}}[t.Intn("cfg", 4)]
 		}
+		m.rack = "r1"
+		if rackMode {
+			m.rack = []string{"r1", "r2", "r3"}[t.Intn("racks", 3)]
+		}
+		m.balancers = []kafka.GroupBalancer{balancer}
+		if _, ok := balancer.(kafka.RackAffinityGroupBalancer); ok {
+			ra := kafka.RackAffinityGroupBalancer{Rack: m.rack}
+			m.balancers = []kafka.GroupBalancer{ra}
+			if mixedLists && k > 0 {
+				// a member half-way through a migration offers the old protocol
+				// as well, before or after the new one; member 0 offers
+				// rack-affinity only, so that is what the coordinator selects
+				if t.Intn("racks", 2) == 0 {
+					m.balancers = []kafka.GroupBalancer{kafka.RangeGroupBalancer{}, ra}
+				} else {
+					m.balancers = []kafka.GroupBalancer{ra, kafka.RoundRobinGroupBalancer{}}
+				}
+			}
+		}
 		members = append(members, m)
 		d := time.Duration(0)
 		if k > 0 {
@@ -280,6 +321,7 @@ func cgroupScenario(s *Sim, params map[string]string) {
 		})
 	}
 	if t.Intn("cfg", 3) == 0 {
+		electionsPlanned = true
 		// a partition of the subscribed topic is without a leader for a while
 		// (election in progress): it is still a partition of the topic
 		at := time.Duration(t.Range("fault", 0, int(endAt/time.Millisecond))) * time.Millisecond
